@@ -24,6 +24,9 @@ def call_args(t: T):
 
 def strip_cast(t: T) -> T:
     while True:
+        if t.kind == "copy":
+            t = t.args[0]
+            continue
         n = ext_name(t)
         if n in CAST_FUNCS and t.args[1]:
             t = t.args[1][0]
